@@ -195,7 +195,7 @@ class Tensor:
             if config is None:
                 raise YastnError("Legacy save_to_dict format requires config.")
             c_isdiag = bool(d['isdiag'])
-            c_Dp = [x[0] for x in d['D']] if c_isdiag else np.prod(d['D'], axis=1, dtype=np.int64).tolist()
+            c_Dp = [x[0] for x in d['D']] if c_isdiag else (np.prod(d['D'], axis=1, dtype=np.int64).tolist() if len(d['D']) > 0 else [])
             cd = _convert_lists_to_tuples({'s': d['s'], 'n': d['n'], 't': d['t'], 'D': d['D'], 'hfs': d['hfs'], 'mfs': d['mfs']})
 
             slices = tuple(_slc(((stop - dp, stop),), ds, dp) for stop, dp, ds in zip(accumulate(c_Dp), c_Dp, cd['D']))
